@@ -21,9 +21,10 @@ class UB(Exception):
 class Spin(Exception):
     """exact configuration repeat inside one step: proven non-termination"""
 
-    def __init__(self, msg, state_idx):
+    def __init__(self, msg, state_idx, via_override=False):
         super().__init__(msg)
         self.state_idx = state_idx
+        self.via_override = via_override     # the cycle passes through an action's override target (overflow redirect / conditional break)
 
 
 class Malformed(Exception):
@@ -164,6 +165,7 @@ class AM:
         self.codes = ["OK", "FAIL", "DONE"] + ["FINISH_" + x for x in dctx.finish_codes] + \
                      ["YIELD_" + x for x in dctx.yield_codes]
         self.max_steps = 4000
+        self.overrides_in_step = 0
 
     # ---------------------------------------------------------------- data
     def capacity(self, o):
@@ -386,11 +388,12 @@ class AM:
         ev = []
         ch = chr(b)
         seen = set()
+        self.overrides_in_step = 0
         for _ in range(self.max_steps):
             s = cfg["state"]
             key = (id(s), tuple(sorted(cfg["data"].items())))
             if key in seen:
-                raise Spin("configuration repeats without consuming", self.idx.get(id(s), -1))
+                raise Spin("configuration repeats without consuming", self.idx.get(id(s), -1), self.overrides_in_step > 0)
             seen.add(key)
             if id(s) not in self.idx or s is self.fail:
                 return ("FAIL", 0, ev)
@@ -423,9 +426,10 @@ class AM:
                     ev.insert(mark, ("C", b))
                 return (e.code, 1 if early else 0, ev)
             except _Redirect:
+                self.overrides_in_step += 1
                 continue
             except _Skip:
-                pass
+                self.overrides_in_step += 1
             if t.is_fallthrough:
                 if in_states:
                     continue
